@@ -156,7 +156,7 @@ func (ct *ContractTable) parseFile(repo, file string) error {
 	keywords := map[string]bool{"func": true, "extern": true, "iface": true, "ghost": true, "ghostfield": true, "pred": true,
 		"requires": true, "ensures": true, "modifies": true, "serves": true, "loop": true, "call": true, "assume": true,
 		"trusted": true, "inline": true, "pure": true, "nobody": true, "axiom": true, "end": true,
-		"gmodifies": true, "gensures": true, "modset": true, "allowpanic": true, "encapsulated": true, "lensures": true, "constmap": true, "selfensures": true, "noframe": true, "nosafety": true, "conststr": true}
+		"gmodifies": true, "gensures": true, "modset": true, "allowpanic": true, "encapsulated": true, "lensures": true, "constmap": true, "selfensures": true, "noframe": true, "nosafety": true, "conststr": true, "nostore": true}
 	for i, l := range lines {
 		t := strings.TrimSpace(l)
 		if !strings.HasPrefix(t, "//@") {
@@ -370,6 +370,27 @@ func (ct *ContractTable) parseFile(repo, file string) error {
 				return errf("conststr: literal must be a Go string literal: %v", err)
 			}
 			cs.Want = lit
+			ct.ConstStrs = append(ct.ConstStrs, cs)
+			cur = nil
+		case "nostore":
+			// nostore[Cxx] fn:field: function fn of this package contains no store into an element of a slice loaded from a
+			// struct field of this name (decided on the SSA): what fn accepts in that field is what its callees put there
+			cs := &ConstStr{PkgPath: pkgPath, File: file, Line: it.line, Src: c, NoStore: true}
+			r := rest
+			if m := tagRe.FindStringSubmatch(r); m != nil {
+				for _, t := range strings.Split(m[1], ",") {
+					if t = strings.TrimSpace(t); t != "" {
+						cs.Tags = append(cs.Tags, t)
+					}
+				}
+				r = strings.TrimSpace(r[len(m[0]):])
+			}
+			k1 := strings.Index(r, ":")
+			if k1 < 0 {
+				return errf("nostore fn:field")
+			}
+			cs.Func = strings.TrimSpace(r[:k1])
+			cs.Callee = strings.TrimSpace(r[k1+1:])
 			ct.ConstStrs = append(ct.ConstStrs, cs)
 			cur = nil
 		case "constmap":
@@ -635,6 +656,7 @@ type ConstStr struct {
 	PkgPath, Func, Callee string
 	Ord                   int
 	Want                  string
+	NoStore               bool
 	Tags                  []string
 	File, Src             string
 	Line                  int
